@@ -682,7 +682,9 @@ def proves_depth(fc, X, D, at, _depth=0):
                     return False, "definition of %s at line %s has no accompanying definition of %s" % (xs, n.line, dsrc)
                 m, rd = twin
                 used.add(m)
-                if r[0] == "assign" and _is_child_step(r[1], xs):
+                if rd[0] == "assign" and _src(rd[1]) in (xs + ".get_depth()", xs + ".depth") and m.id > n.id:
+                    continue        # D is read off the cell right after the cell is chosen
+                if r[0] == "assign" and (_is_child_step(r[1], xs) or is_child_of(fc, r[1], xs, n)):
                     if not (rd[0] == "aug" and isinstance(rd[1], ast.Add) and _const_int(rd[2]) and rd[2].value == 1
                             or rd[0] == "assign" and _src(rd[1]) in ("%s + 1" % dsrc, "1 + %s" % dsrc)):
                         return False, "cell steps to a child at line %s but %s is not incremented by one with it" % (n.line, dsrc)
